@@ -466,10 +466,25 @@ func c15kvOrder(t *rapid.T, n int, label string) []int {
 	return p
 }
 
+// c15kvLastFail keeps the last failure message: when the code under test is not
+// deterministic rapid cannot reproduce the failure and prints only "flaky test".
+var c15kvLastFail string
+
+func (c *c15kvCase) fatalf(format string, a ...any) {
+	c15kvLastFail = fmt.Sprintf(format, a...)
+	c.t.Fatalf("%s", c15kvLastFail)
+}
+
+func c15kvReportLast(t *testing.T) {
+	if t.Failed() && c15kvLastFail != "" {
+		t.Logf("last failure message: %s", c15kvLastFail)
+	}
+}
+
 func (c *c15kvCase) owner(key string) int {
 	v, ok := c.ring.Get(key)
 	if !ok {
-		c.t.Fatalf("reference ring with %d nodes names no node for key %q; %s", len(c.nodes), key, c.log.String())
+		c.fatalf("reference ring with %d nodes names no node for key %q; %s", len(c.nodes), key, c.log.String())
 	}
 	addr := v.(*redis.Redis).Addr
 	for _, n := range c.nodes {
@@ -477,7 +492,7 @@ func (c *c15kvCase) owner(key string) int {
 			return n.idx
 		}
 	}
-	c.t.Fatalf("reference ring named an unknown node %q", addr)
+	c.fatalf("reference ring named an unknown node %q", addr)
 	return -1
 }
 
@@ -497,37 +512,37 @@ func (c *c15kvCase) checkKey(key, after string) {
 	h := c.holders(key)
 	inRef := c.env.ref.Exists(key)
 	if len(h) > 1 {
-		c.t.Fatalf("single owner violated after %s: key %q is held by %d servers %v (owner by the reference ring: #%d); %s",
+		c.fatalf("single owner violated after %s: key %q is held by %d servers %v (owner by the reference ring: #%d); %s",
 			after, key, len(h), h, c.owner(key), c.log.String())
 	}
 	if inRef != (len(h) == 1) {
-		c.t.Fatalf("after %s: key %q exists on the reference node: %v, on the cluster servers: %v; %s",
+		c.fatalf("after %s: key %q exists on the reference node: %v, on the cluster servers: %v; %s",
 			after, key, inRef, h, c.log.String())
 	}
 	if len(h) == 0 {
 		return
 	}
 	if !c.inCase[h[0]] {
-		c.t.Fatalf("member-only violated after %s: key %q is on server #%d, which is not a node of this store; %s",
+		c.fatalf("member-only violated after %s: key %q is on server #%d, which is not a node of this store; %s",
 			after, key, h[0], c.log.String())
 	}
 	if own := c.owner(key); h[0] != own {
-		c.t.Fatalf("after %s: key %q is on server #%d, the reference ring (AddWithWeight(redis node, weight)) names #%d; %s",
+		c.fatalf("after %s: key %q is on server #%d, the reference ring (AddWithWeight(redis node, weight)) names #%d; %s",
 			after, key, h[0], own, c.log.String())
 	}
 	c.landed[h[0]] = true
 	mr := c.env.pool[h[0]]
 	if gt, wt := mr.Type(key), c.env.ref.Type(key); gt != wt {
-		c.t.Fatalf("after %s: key %q has type %s on its server, %s on the reference node; %s", after, key, gt, wt, c.log.String())
+		c.fatalf("after %s: key %q has type %s on its server, %s on the reference node; %s", after, key, gt, wt, c.log.String())
 	}
 	if gt, wt := mr.TTL(key), c.env.ref.TTL(key); gt != wt {
-		c.t.Fatalf("after %s: key %q has TTL %v on its server, %v on the reference node; %s", after, key, gt, wt, c.log.String())
+		c.fatalf("after %s: key %q has TTL %v on its server, %v on the reference node; %s", after, key, gt, wt, c.log.String())
 	}
 	if mr.Type(key) == "string" {
 		gv, _ := mr.Get(key)
 		wv, _ := c.env.ref.Get(key)
 		if gv != wv {
-			c.t.Fatalf("after %s: key %q holds %q on its server, %q on the reference node; %s", after, key, gv, wv, c.log.String())
+			c.fatalf("after %s: key %q holds %q on its server, %q on the reference node; %s", after, key, gv, wv, c.log.String())
 		}
 	}
 }
@@ -539,7 +554,7 @@ func (c *c15kvCase) sweep() {
 	for i, mr := range c.env.pool {
 		ks := mr.Keys()
 		if len(ks) > 0 && !c.inCase[i] {
-			c.t.Fatalf("member-only violated: server #%d is not a node of this store but holds %q; %s", i, ks, c.log.String())
+			c.fatalf("member-only violated: server #%d is not a node of this store but holds %q; %s", i, ks, c.log.String())
 		}
 		total += len(ks)
 	}
@@ -553,7 +568,7 @@ func (c *c15kvCase) sweep() {
 				all = append(all, fmt.Sprintf("#%d:%s", i, k))
 			}
 		}
-		c.t.Fatalf("the servers hold %d keys %q, the reference node %d keys %q; %s", total, all, len(want), want, c.log.String())
+		c.fatalf("the servers hold %d keys %q, the reference node %d keys %q; %s", total, all, len(want), want, c.log.String())
 	}
 }
 
@@ -609,7 +624,7 @@ func (c *c15kvCase) exec(st *verifkit.Stats, op c15kvOp, call *c15kvCall, si int
 	}
 	c.infra(st, res.ge, res.we)
 	if !c15kvSame(op, res) {
-		c.t.Fatalf("%s on the %d-node store returned (%#v, %v), one redis node returns (%#v, %v); owner of the key by the reference ring: #%d, held by %v; %s",
+		c.fatalf("%s on the %d-node store returned (%#v, %v), one redis node returns (%#v, %v); owner of the key by the reference ring: #%d, held by %v; %s",
 			desc, len(c.nodes), res.g, res.ge, res.w, res.we, c.owner(call.key), c.holders(call.key), c.log.String())
 	}
 	c.checkKey(call.key, desc)
@@ -700,7 +715,7 @@ func (c *c15kvCase) delMany(st *verifkit.Stats) {
 		we, w = ge, g
 	}
 	if g != w || (ge == nil) != (we == nil) {
-		t.Fatalf("%s on the %d-node store returned (%d, %v), one redis node returns (%d, %v); %s", desc, len(c.nodes), g, ge, w, we, c.log.String())
+		c.fatalf("%s on the %d-node store returned (%d, %v), one redis node returns (%d, %v); %s", desc, len(c.nodes), g, ge, w, we, c.log.String())
 	}
 	for _, k := range keys {
 		c.checkKey(k, desc)
@@ -712,6 +727,7 @@ func TestVerifC15KvSites(t *testing.T) {
 	st := verifkit.New("dispatch-sites-kv")
 	defer st.Flush()
 	env := c15kvGetEnv(t)
+	defer c15kvReportLast(t)
 
 	rapid.Check(t, func(t *rapid.T) {
 		st.Eval()
@@ -763,11 +779,6 @@ func TestVerifC15KvSites(t *testing.T) {
 		}
 		fmt.Fprintf(&c.log, " orders=%v prefix=%q:", c.orders, c.prefix)
 
-		for i, np := 0, rapid.IntRange(0, 12).Draw(t, "initialProbes"); i < np; i++ {
-			c.probe(st)
-		}
-		c.sweep()
-
 		t.Repeat(map[string]func(*rapid.T){
 			"string":  func(t *rapid.T) { c.t = t; c.step(st, "str", "num") },
 			"anykey":  func(t *rapid.T) { c.t = t; c.step(st, "any") },
@@ -777,6 +788,7 @@ func TestVerifC15KvSites(t *testing.T) {
 			"zset":    func(t *rapid.T) { c.t = t; c.step(st, "zset") },
 			"delmany": func(t *rapid.T) { c.t = t; c.delMany(st) },
 			"probe":   func(t *rapid.T) { c.t = t; c.probe(st) },
+			"probe2":  func(t *rapid.T) { c.t = t; c.probe(st) }, // twice as likely as the other actions
 			"":        func(t *rapid.T) { c.t = t; c.sweep() },
 		})
 
